@@ -171,19 +171,19 @@ def run(ctx):
         raise vlib.Infra("GeoJsonArea: area rules of GeoJson.tla differ from PolygonRules.tla:\n%s" % a.out[-3000:])
 
     ctx.exhaustive = False
-    ctx.rule = ("cases = families F1..F6 of GeoJsonSpace.tla enumerated completely by TLC + a seeded RandomSubset sample of the full "
-                "product space (<= 3 nodes, <= 2 ways, <= 2 relations), %s; each case is converted under all 16 option sets, "
+    ctx.rule = ("cases = families F1..F7 of GeoJsonSpace.tla (F7: real-size routes, up to 30 sections) enumerated completely by TLC + a seeded "
+                "RandomSubset sample of the full product space (<= 3 nodes, <= 2 ways, <= 2 relations), %s; each case is converted under all 16 option sets, "
                 "3 conversions per option set (evaluations = cases x 16 x 3); distinct = distinct abstract data sets; "
-                "non-trivial = at least two elements; states = GeoJsonMC (the step machine over the same cases) + GeoJsonArea"
+                "non-trivial = at least two elements; states = GeoJsonMC (the step machine over the same cases; F7 up to 13 sections) + GeoJsonArea"
                 % ("GeoJsonGen_%s.cfg" % tier))
     ctx.assumptions = [
-        "tag keys are unique within an element and tag values are non-empty",
+        "tag keys are unique within an element (tag values may be empty)",
         "relation members carry no orientation and no way-node lists (un-annotated relations)",
         "multipolygon/boundary relations have at most two inner/outer way members (ring assembly is C16)",
         "an annotated way node carries the same coordinates as the node of that id when both exist and the node is located",
         "NodeRule is read as an exact mapping (a node feature only for a node satisfying the condition); silent for nodes without location",
         "the Judge is silent on geometry of multipolygon/boundary features, on ways that are members of such relations, "
-        "and on the presence of ways that are members of rendered relations",
+        "and on the presence of route member ways that have no interesting tag of their own",
         "the area rules are those of PolygonRules.tla (checked identical by GeoJsonArea.tla at every run)",
     ]
 
